@@ -23,7 +23,10 @@ var (
 		"127.0.0.1", "10.0.0.5", "10.1.2.3", "192.168.1.7", "192.168.2.7", "::1", "2001:db8::1", "2001:db9::1",
 		"::ffff:10.0.0.5", "fe80::1", "1.2.3.999", "ab", "[::1]", "0.0.0.0", "::",
 	}
-	ePoolNames = []string{"laptop", "phone", "Frank's laptop", "a,b", "tv", "pc|x", "Mary \"the\" PC", "x/y", "ff", "~tilde", "é", "Fränk", "Frank's läptop", "日本", "ſ", "kids,tv|box", "back\\slash"}
+	ePoolNames = []string{"laptop", "phone", "Frank's laptop", "a,b", "tv", "pc|x", "Mary \"the\" PC", "x/y", "ff", "~tilde", "é", "Fränk", "Frank's läptop", "日本", "ſ", "kids,tv|box", "back\\slash",
+		// names that begin / end with a quote character: quoted with the same character they end in `\"` + `"` (exactly one pair of
+		// quotes is removed, then the escapes are undone), quoted with the other one, or unquoted they stay as they are
+		"Bob \"Mac\"", "the kids'", "\"", "'", "\"x", "y'", "''a''", "\"\"b", "'\"", "\"q\" 'r'", "\\'", "a\\\""}
 	ePoolTagsX = []string{"device_pc", "device_phone", "device_", "device_pc2", "os_linux", "user_admin", "user_child", "a", "b", "c", "aa", "ab", "z9", "_", "0"}
 	ePoolDNS   = []string{"A", "AAAA", "CNAME", "HTTPS", "TXT", "MX", "PTR", "SRV", "SVCB", "a", "aaaa", "Https", "NS", "SOA", "ANY", "TYPE65", "None", "Reserved", "", "A1"}
 	// suffixes for `x.*` values: ICANN suffixes of 1, 2, 3 and 4 labels (wildcard rules of the list: "foo.kawasaki.jp" is a
@@ -41,7 +44,7 @@ func eReseed(r *rng) *rng { return &rng{s: r.u64() ^ 0x5DEECE66D} }
 func eQuoteClient(r *rng, c string) string {
 	c = strings.ReplaceAll(c, ",", `\,`)
 	c = strings.ReplaceAll(c, "|", `\|`)
-	if strings.ContainsAny(c, " '\"") || r.chance(1, 4) {
+	if (strings.ContainsAny(c, " '\"") && !r.chance(1, 6)) || r.chance(1, 4) {
 		q := pick(r, []string{"'", "\""})
 		c = q + strings.ReplaceAll(c, q, `\`+q) + q
 	}
